@@ -292,7 +292,7 @@ func TestMeaninglessRangesRejected(t *testing.T) {
 		ctxPre := rapid.SampledFrom([]string{"", "a", "(b|", "x*", "[0-9]", "^"}).Draw(t, "pre")
 		ctxPost := map[string]string{"": "", "a": "b", "(b|": ")", "x*": "y", "[0-9]": "z", "^": "$"}[ctxPre]
 		if rapid.Bool().Draw(t, "charRange") {
-			hi := rapid.SampledFrom([]rune{'b', 'z', '9', 'Z', 0x7E, 0xE9, 0x3A9, 0x1F64F, 0xE000, 0xE001, 0xDFFF, 0xD801, 0xFFFD, 0xFFFE, 0x10000, 0x10FFFF}).Draw(t, "hi")
+			hi := rapid.SampledFrom([]rune{'b', 'z', '9', 'Z', 0x7E, 0xE9, 0x3A9, 0x1F64F, 0xE000, 0xE001, 0xDFFF, 0xD801, 0xFFFD, 0xFFFE, 0x10000, 0x10FFFF, 0x110000, 0x110005, 0x7FFFFFFF}).Draw(t, "hi")
 			lo := hi - rune(rapid.IntRange(1, 40).Draw(t, "d"))
 			if lo < 0x21 {
 				lo = 0x21
